@@ -25,6 +25,7 @@ import (
 	"strings"
 	"time"
 
+	"simrt"
 	"verif/sim/engine"
 )
 
@@ -130,30 +131,31 @@ func loadFindings(path string) ([]knownFinding, error) {
 }
 
 type workerOut struct {
-	Runs        int                `json:"runs"`
-	Nontrivial  []uint64           `json:"nontrivial"`
-	Clauses     map[string]int     `json:"clauses"`
-	Faults      map[string]int     `json:"faults"`
-	Probes      map[string]int     `json:"probes"`
-	Routes      map[string]int     `json:"routes"`
-	Porcupine   map[string]int     `json:"porcupine"`
-	Steps       int64              `json:"steps"`
-	HandOffs    int64              `json:"handoffs"`
-	SimSeconds  float64            `json:"simSeconds"`
-	Ops         int                `json:"ops"`
-	CrashPoints int                `json:"crashPoints"`
-	KnownHits   map[string]int     `json:"knownHits"`
-	Foreign     map[string]int     `json:"foreign"`
-	ForeignEx   map[string]string  `json:"foreignEx"`
-	Violations  []workerViolation  `json:"violations"`
-	Samples     []string           `json:"samples"`
-	Backends    map[string]int     `json:"backends"`
-	Policies    map[string]int     `json:"policies"`
-	Rechecked   int                `json:"rechecked"`
-	Infra       string             `json:"infra"`
-	ShrinkTries int                `json:"shrinkTries"`
-	Configs     map[string]int     `json:"configs"`
-	Hung        int64              `json:"hung"` // index+1 of a run that exceeded the wall-clock limit (0: none)
+	Runs        int               `json:"runs"`
+	Nontrivial  []uint64          `json:"nontrivial"`
+	Clauses     map[string]int    `json:"clauses"`
+	Faults      map[string]int    `json:"faults"`
+	Probes      map[string]int    `json:"probes"`
+	Routes      map[string]int    `json:"routes"`
+	Porcupine   map[string]int    `json:"porcupine"`
+	Steps       int64             `json:"steps"`
+	HandOffs    int64             `json:"handoffs"`
+	SimSeconds  float64           `json:"simSeconds"`
+	Ops         int               `json:"ops"`
+	CrashPoints int               `json:"crashPoints"`
+	KnownHits   map[string]int    `json:"knownHits"`
+	Foreign     map[string]int    `json:"foreign"`
+	ForeignEx   map[string]string `json:"foreignEx"`
+	Violations  []workerViolation `json:"violations"`
+	Samples     []string          `json:"samples"`
+	Backends    map[string]int    `json:"backends"`
+	Policies    map[string]int    `json:"policies"`
+	Rechecked   int               `json:"rechecked"`
+	Infra       string            `json:"infra"`
+	ShrinkTries int               `json:"shrinkTries"`
+	Configs     map[string]int    `json:"configs"`
+	Hung        int64             `json:"hung"`        // index+1 of a run that exceeded the wall-clock limit (0: none)
+	HungStalled bool              `json:"hungStalled"` // ... and during which no byte moved, no lock was taken and no file-system call was made
 }
 
 type workerViolation struct {
@@ -232,11 +234,17 @@ func runWorker(known []knownFinding) {
 	// failure (loop inside uninstrumented code), never a violation
 	go func() {
 		last, since := int64(-2), time.Now()
+		prog, progSince := int64(-1), time.Now()
 		for {
 			time.Sleep(2 * time.Second)
+			if n := simrt.ProgressCount(); n != prog {
+				prog, progSince = n, time.Now()
+			}
 			if cur != last {
 				last, since = cur, time.Now()
 			} else if time.Since(since) > wallLimit {
+				// spinning (nothing moved for nearly all of that time) or merely slow?
+				out.HungStalled = time.Since(progSince) > wallLimit*9/10
 				// hand over what the runs before this one produced (the run
 				// itself is stuck and touches nothing), then give up
 				fmt.Fprintf(os.Stderr, "simcheck worker: run index %d exceeded the wall-clock limit\n", cur)
@@ -400,6 +408,24 @@ func doReplay(path string) int {
 	if *fProp != "" {
 		p.Property = *fProp
 	}
+	if os.Getenv("SIMCHECK_HANGPROBE") != "" {
+		// confirmation of a run that never came back: report whether this
+		// execution exceeds the limit too, and whether anything moved meanwhile
+		go func() {
+			start := time.Now()
+			prog, progSince := int64(-1), time.Now()
+			for {
+				time.Sleep(2 * time.Second)
+				if n := simrt.ProgressCount(); n != prog {
+					prog, progSince = n, time.Now()
+				}
+				if time.Since(start) > wallLimit {
+					fmt.Printf("HANG stalled=%v\n", time.Since(progSince) > wallLimit*9/10)
+					os.Exit(0)
+				}
+			}
+		}()
+	}
 	res := execPlan(p)
 	if os.Getenv("SIMCHECK_TWICE") != "" {
 		res2 := execPlan(p)
@@ -462,7 +488,9 @@ const wallLimit = 300 * time.Second
 // whether it exceeds the wall-clock limit there too.
 func hangsInFreshProcess(path string) bool {
 	cmd := exec.Command(os.Args[0], "-replay", path, "-json", "-prop", *fProp, "-scratch", scratchDir())
-	cmd.Env = append(os.Environ(), "GOMAXPROCS=1")
+	cmd.Env = append(os.Environ(), "GOMAXPROCS=1", "SIMCHECK_HANGPROBE=1")
+	var stdout bytes.Buffer
+	cmd.Stdout = &stdout
 	if err := cmd.Start(); err != nil {
 		return false
 	}
@@ -470,11 +498,12 @@ func hangsInFreshProcess(path string) bool {
 	go func() { cmd.Wait(); close(done) }()
 	select {
 	case <-done:
-		return false
-	case <-time.After(wallLimit):
+		// the replay process watches itself (see doReplay) and says so
+		return strings.Contains(stdout.String(), "HANG stalled=true")
+	case <-time.After(wallLimit + 30*time.Second):
 		cmd.Process.Kill()
 		<-done
-		return true
+		return false
 	}
 }
 
@@ -642,8 +671,9 @@ func parent(known []knownFinding) int {
 	ch := make(chan wres, workers)
 	var fatalMu = make(chan struct{}, 1)
 	fatalMu <- struct{}{}
-	var fatals []string // replay files of runs that killed the worker process
-	var hangs []int64   // indices of runs that exceeded the wall-clock limit
+	var fatals []string         // replay files of runs that killed the worker process
+	var hangs []int64           // indices of runs that exceeded the wall-clock limit
+	stalled := map[int64]bool{} // ... without anything moving
 	for w := 0; w < workers; w++ {
 		go func(w int) {
 			index := w
@@ -674,6 +704,9 @@ func parent(known []knownFinding) int {
 						// the run never came back: remember it, go on behind it
 						<-fatalMu
 						hangs = append(hangs, out.Hung-1)
+						if out.HungStalled {
+							stalled[out.Hung-1] = true
+						}
 						fatalMu <- struct{}{}
 						index = int(out.Hung-1) + workers
 						first = false
@@ -821,6 +854,10 @@ func parent(known []knownFinding) int {
 		file := filepath.Join(*fReplays, fmt.Sprintf("%s-%d-hang-%d.json", prop, *fSeed, idx))
 		plan.Save(file)
 		switch {
+		case !stalled[idx]:
+			// slow, not stuck: bytes kept moving, locks were taken, files touched
+			fmt.Fprintf(os.Stderr, "simcheck: run index %d exceeded the wall-clock limit while still making progress (plan %s): no verdict\n", idx, file)
+			infra++
 		case prop != "C09":
 			fmt.Fprintf(os.Stderr, "simcheck: run index %d exceeded the wall-clock limit (plan %s); a hang is C09's clause\n", idx, file)
 			infra++
@@ -934,37 +971,37 @@ func writeEvidence(prop string, t *workerOut, distinct int, wall float64, nviol,
 		"distinct_nontrivial": distinct,
 		"rule": "one evaluation = one simulated run: a plan (configuration, per-client operations with attached faults, schedule) generated from (VERIF_SEED, run index) and executed start to finish against the instrumented working tree of /repo; " +
 			"distinct_nontrivial counts distinct (schedule fingerprint, final model-state fingerprint, event-log hash) triples among runs that executed >= 1 mutating operation and >= 1 checked clause",
-		"samples":                    samples,
-		"exhaustive":                 false,
-		"runs_per_hour":              perHour,
-		"seeds_per_hour":             perHour,
-		"workers":                    workers,
-		"operations":                 t.Ops,
-		"scheduling_points":          t.Steps,
-		"baton_handoffs":             t.HandOffs,
-		"simulated_seconds":          t.SimSeconds,
-		"faults_fired_by_kind":       t.Faults,
-		"crash_points_examined":      t.CrashPoints,
-		"probes":                     t.Probes,
-		"clause_evaluations":         t.Clauses,
-		"routes":                     t.Routes,
-		"porcupine":                  t.Porcupine,
-		"backends":                   t.Backends,
-		"schedule_policies":          t.Policies,
-		"foreign_divergences":        t.Foreign,
-		"known_finding_hits":         t.KnownHits,
-		"known_findings_confirmed":   knownOK,
-		"known_findings_stale":       knownStale,
-		"regression_plans_replayed":  regress,
+		"samples":                         samples,
+		"exhaustive":                      false,
+		"runs_per_hour":                   perHour,
+		"seeds_per_hour":                  perHour,
+		"workers":                         workers,
+		"operations":                      t.Ops,
+		"scheduling_points":               t.Steps,
+		"baton_handoffs":                  t.HandOffs,
+		"simulated_seconds":               t.SimSeconds,
+		"faults_fired_by_kind":            t.Faults,
+		"crash_points_examined":           t.CrashPoints,
+		"probes":                          t.Probes,
+		"clause_evaluations":              t.Clauses,
+		"routes":                          t.Routes,
+		"porcupine":                       t.Porcupine,
+		"backends":                        t.Backends,
+		"schedule_policies":               t.Policies,
+		"foreign_divergences":             t.Foreign,
+		"known_finding_hits":              t.KnownHits,
+		"known_findings_confirmed":        knownOK,
+		"known_findings_stale":            knownStale,
+		"regression_plans_replayed":       regress,
 		"runs_reexecuted_for_determinism": t.Rechecked,
 		"real_vs_stub": map[string]string{
-			"gofakes3 root package, s3mem, s3bolt, s3afero, goskipiter": "real (instrumented copy of /repo's working tree)",
+			"gofakes3 root package, s3mem, s3bolt, s3afero, goskipiter":                                                                    "real (instrumented copy of /repo's working tree)",
 			"goskiplist, afero BasePathFs/MemMapFs/OsFs, mgo/bson, encoding/xml, net/http request parser and body framing, mime/multipart": "real, uninstrumented",
-			"bbolt":                          "real on a real file (tmpfs) + 2 hook lines; transactions are atomic scheduling steps",
-			"sockets, net/http server loop":  "stub (simnet)",
-			"filesystem under s3afero":       "stub (simfs) for fault/crash/interleaving runs; real MemMapFs / real directory otherwise",
+			"bbolt":                            "real on a real file (tmpfs) + 2 hook lines; transactions are atomic scheduling steps",
+			"sockets, net/http server loop":    "stub (simnet)",
+			"filesystem under s3afero":         "stub (simfs) for fault/crash/interleaving runs; real MemMapFs / real directory otherwise",
 			"sync.Mutex/RWMutex, Go scheduler": "stub (simrt baton scheduler)",
-			"wall clock":                     "stub (simclock)",
+			"wall clock":                       "stub (simclock)",
 		},
 	}
 	ev := map[string]interface{}{
